@@ -279,7 +279,7 @@ def func_line(module: str, func: str) -> int:
 
 
 def _parse_call_args(msg: str, func: str) -> Optional[list[Any]]:
-    m = re.search(r"when calling " + re.escape(func) + r"\((.*)\)(?: \(which (?:returns|raises)|$)", msg, re.S)
+    m = re.search(r"when calling " + re.escape(func) + r"\((.*?)\)(?: \(which (?:returns|raises)|\s*$)", msg, re.S)
     if not m:
         return None
     try:
@@ -355,13 +355,19 @@ def replay_call(module: str, func: str, args: list[Any], cfg: dict[str, Any],
     return {"error": (p.stdout or "")[-1500:] + (p.stderr or "")[-2500:]}
 
 
+_PATH_FD: Optional[int] = None
+if os.environ.get("VERIF_PATHLOG"):
+    # opened at import, i.e. before CrossHair starts tracing (it blocks open() during analysis)
+    try:
+        _PATH_FD = os.open(os.environ["VERIF_PATHLOG"], os.O_WRONLY | os.O_APPEND | os.O_CREAT, 0o644)
+    except OSError:
+        _PATH_FD = None
+
+
 def path_tick() -> None:
     """Called by harness bodies once per explored path (after preconditions)."""
-    p = os.environ.get("VERIF_PATHLOG")
-    if p:
-        fd = os.open(p, os.O_WRONLY | os.O_APPEND | os.O_CREAT, 0o644)
-        os.write(fd, b".")
-        os.close(fd)
+    if _PATH_FD is not None:
+        os.write(_PATH_FD, b".")
 
 
 def cfg() -> dict[str, Any]:
